@@ -102,6 +102,34 @@ class ClassDef:
         return f"<ClassDef {self.qualname}>"
 
 
+def assigned_expr(st: ast.stmt, name: str) -> Optional[ast.expr]:
+    """The expression a module-level assignment statement binds `name` to; for unpacking targets (`a, b = xs`) the
+    synthetic expression `xs[i]` (None when it cannot be expressed, e.g. starred targets)."""
+    if isinstance(st, ast.AnnAssign):
+        return st.value
+    if not isinstance(st, ast.Assign):
+        return None
+
+    def path(t: ast.expr, value: ast.expr) -> Optional[ast.expr]:
+        if isinstance(t, ast.Name):
+            return value if t.id == name else None
+        if isinstance(t, (ast.Tuple, ast.List)):
+            if any(isinstance(e, ast.Starred) for e in t.elts):
+                return None
+            for i, e in enumerate(t.elts):
+                sub = ast.copy_location(ast.Subscript(value=value, slice=ast.copy_location(ast.Constant(value=i), value), ctx=ast.Load()), value)
+                got = path(e, sub)
+                if got is not None:
+                    return got
+        return None
+
+    for t in st.targets:
+        got = path(t, st.value)
+        if got is not None:
+            return got
+    return None
+
+
 @dataclass
 class Module:
     name: str
@@ -236,6 +264,10 @@ class SrcModel:
                     for t in st.targets:
                         if isinstance(t, ast.Name):
                             mod.assigns.setdefault(t.id, []).append(st)
+                        elif isinstance(t, (ast.Tuple, ast.List)):
+                            for sub in ast.walk(t):  # a, (b, c) = ...
+                                if isinstance(sub, ast.Name):
+                                    mod.assigns.setdefault(sub.id, []).append(st)
                 elif isinstance(st, ast.AnnAssign) and isinstance(st.target, ast.Name):
                     mod.assigns.setdefault(st.target.id, []).append(st)
                 elif isinstance(st, ast.If):
@@ -430,6 +462,11 @@ class SrcModel:
                     continue
                 if isinstance(st.value, ast.Constant):
                     out[name] = st.value.value
+                elif isinstance(st.value, (ast.Tuple, ast.UnaryOp)):
+                    try:
+                        out[name] = ast.literal_eval(st.value)  # e.g. members with several attributes: NAME = ("x", 0)
+                    except (ValueError, TypeError, SyntaxError):
+                        pass
         return out
 
     def attrs_fields(self, cls: ClassDef) -> Dict[str, Dict[str, object]]:
@@ -461,6 +498,8 @@ class SrcModel:
                                     info["validator_optional"] = True
                                 if kw.arg == "converter":
                                     info["converter"] = kw.value
+                                if kw.arg == "validator":
+                                    info["validator"] = kw.value
                         else:
                             info["has_default"] = True
                             info["default"] = v
@@ -497,7 +536,7 @@ class SrcModel:
                 for n in ast.walk(fn.node):
                     if isinstance(n, ast.Global) and name in n.names:
                         return None
-        return sts[0].value
+        return assigned_expr(sts[0], name)
 
     def parents(self, fn_or_tree) -> Dict[int, ast.AST]:
         root = fn_or_tree.node if isinstance(fn_or_tree, FuncDef) else fn_or_tree
